@@ -1226,6 +1226,7 @@ fn reorder(name: &str, mut out: Vec<(String, Val)>) -> Vec<(String, Val)> {
     let order: &[&str] = match name {
         "FR2" => &["attrs", "rest"],
         "FR3" => &["attrs", "p"],
+        "DI7" => &["attrs", "p"],
         "DI2" => &["attrs", "data", "q"],
         "DI3" => &["data", "generics", "p"],
         "DI6" => &["data", "p"],
